@@ -229,12 +229,12 @@ reg("C13",
 reg("C11",
     title="attribute values take effect and are inherited as documented",
     technique="effect monitor: after every accepted set (creation map, while resolving with a held stub resolver, while the TCP handshake is pending on a no-answer candidate, established, after peer close, accept map, accepted socket) xcm_attr_get and getsockopt()/getsockname() on the connection's kernel descriptor (from the shim's ledger) are compared with the values set; inheritance, blocking-switch, service-admission, creation-only (EACCES + unchanged snapshot) oracles; ASan+UBSan",
-    level_text="TCP keepalive/user-timeout attributes (single and in combinations, boundary values) are set at each point of a connection's life on tcp, tls, utls, btcp and btls - including while the resolver is silent and while the first candidate does not answer so that the value must be parked and applied to the socket that finally connects - and are then read back through xcm_attr_get and from the kernel with getsockopt on the descriptor the shim saw XCM create (defaults included). Accepted sockets are compared with their server socket for xcm.service, xcm.blocking and the TLS policy attributes with and without overrides in the accept map; xcm.blocking/xcm_set_blocking/xcm_is_blocking are cross-checked, xcm_fd/xcm_await must refuse with EINVAL in blocking mode; xcm.service values are tried against every transport on server and connect side; twenty creation-only attributes are set after creation on sockets held in six phases and must be refused with EACCES with the full attribute snapshot unchanged; xcm.local_addr is compared with getsockname and with the peer's view.",
-    level_note="Kernel clamps are avoided by using values the kernel accepts; what the kernel does with the options afterwards (probe timing) is not observed.",
+    level_text="TCP keepalive/user-timeout attributes (single and in combinations, boundary values) are set at each point of a connection's life on tcp, tls, utls, btcp and btls - including while the resolver is silent and while the first candidate does not answer so that the value must be parked and applied to the socket that finally connects - and are then read back through xcm_attr_get and from the kernel with getsockopt on the descriptor the shim saw XCM create (defaults included). Accepted sockets are compared with their server socket for xcm.service, xcm.blocking and the TLS policy attributes with and without overrides in the accept map; xcm.blocking/xcm_set_blocking/xcm_is_blocking are cross-checked, xcm_fd/xcm_await must refuse with EINVAL in blocking mode; xcm.service values are tried against every transport on server and connect side; twenty creation-only attributes are set after creation on sockets held in six phases and must be refused with EACCES with the full attribute snapshot unchanged; xcm.local_addr is compared with getsockname and with the peer's view. On 40 % of the established / accepted sockets a value that XCM's range check passes but the kernel refuses (keepalive time/interval above 32767, count above 127) is set twice: whatever each call returns, accepted must mean reported and in force, refused must mean unchanged.",
+    level_note="Apart from that probe, kernel clamps are avoided by using values the kernel accepts; what the kernel does with the options afterwards (probe timing) is not observed.",
     harness=STATES + ["c11.c"],
     stages=[dict(variant="asan", cases={"quick": 1600, "thorough": 96000}, timeout={"quick": 900, "thorough": 3400})],
     floors={"quick": {"tcp_option_verifications": 600, "kernel_option_reads": 3000, "parked_sets_whose_connection_established": 150, "sets_while_resolving": 80, "sets_while_connecting": 80,
-                      "inheritance_checks": 200, "tls_policy_inheritance_checks": 60, "blocking_switch_checks": 1000, "service_checks": 500, "create_only_sets": 1500, "local_addr_checks": 60, "distinct_nontrivial": 150},
+                      "inheritance_checks": 200, "tls_policy_inheritance_checks": 60, "blocking_switch_checks": 1000, "service_checks": 500, "create_only_sets": 1500, "local_addr_checks": 60, "kernel_refused_values_refused": 40, "distinct_nontrivial": 150},
             "thorough": {"tcp_option_verifications": 12000, "parked_sets_whose_connection_established": 3000, "create_only_sets": 30000, "distinct_nontrivial": 300}},
     rule="one evaluation = one scenario of one family (tcp options at one moment, inheritance, blocking switch, service admission, creation-only attributes on one held socket set, local address); distinct = distinct (family, transport, moment/state, which options) signatures",
     assumptions=["xcm.service \"any\" and tls.peer_names are documented to read back differently from what was written and are not compared literally",
